@@ -16,6 +16,13 @@ const zz = repoMod + "/pkg/zzverif."
 
 func reg(name string, f intrinsic) { intrinsics[name] = f }
 
+// regIfAbsent registers a default model that a more specific file may replace.
+func regIfAbsent(name string, f intrinsic) {
+	if _, ok := intrinsics[name]; !ok {
+		intrinsics[name] = f
+	}
+}
+
 func (w *Worker) argStr(v Value) string {
 	s, ok := v.(StringV).Concrete()
 	if !ok {
